@@ -676,6 +676,7 @@ def configs(tier):
     from . import c05
     out.append((c05.mesh_req, dict(user='none')))
     out.append((c05.mesh_req, dict(user='given')))
+    out.append((c05.loop_body, dict(n_bounds=3, req='user')))      # every step the mesh takes is <= that requirement
     if tier == 'thorough':
         out.append((gap_flow, dict(present=(1,) * 7, types='abUcabU')))
         out.append((interior, dict(n_ring=5)))
